@@ -21,7 +21,7 @@ TARGETS = ["Tx3Proofs.C11"]
 THEOREMS = ["Tx3.sortBy_perm_invariant", "Tx3.sorted_perm_eq", "Tx3.Wire.C18_directive_order_independent", "Tx3.Wire.C18_encoding_function"]
 RULE = (
     "cases = programs: every /repo/examples/*.tx3 and every coverage-driven corpus program (frontp::extra_corpus) that lowers, plus generated programs (transfer shapes, min_utxo "
-    "shapes, 1-3 cardano::withdrawal directives with three fields each and a treasury donation, alike-named programs "
+    "shapes, 1-3 cardano::withdrawal directives with three fields each and a treasury donation, every kind of block (withdrawal, donation, plutus and native witness, mint, metadata, output, signers) written two and three times verbatim, alike-named programs "
     "that give one policy / record / transaction name different contents); each lowered and "
     "encoded 20x in-process, 3x in fresh processes for a quarter of them, TII emitted 3x by the tx3c binary with its "
     "default command line and, for two more command lines per program (1-3 --profile flags and 1-2 "
